@@ -251,7 +251,16 @@ func slotAgreement(c *Ctx, prop string, which map[string]bool) {
 						bad = "a duration slot printed as " + qc + " (not through FormatDuration)"
 					case (pc == "INT" || pc == "UINT") && qc != "INT" && qc != "UINT":
 						bad = "an integer slot printed as " + qc
-					case pc == "NODE" && qc != "NODE" && !strings.HasPrefix(qc, "CALL:"):
+					case pc == "NODE" && qc != "NODE" && !strings.HasPrefix(qc, "CALL:") && !func() bool {
+						// a special form for one dynamic kind (a string literal written as
+						// a name) beside the general node print is not a class mismatch
+						for _, k := range printed[f] {
+							if qe[k].kind == "EMIT" && (qe[k].class == "NODE" || strings.HasPrefix(qe[k].class, "CALL:")) {
+								return true
+							}
+						}
+						return false
+					}():
 						bad = "a node slot printed as " + qc
 					case identClasses[pc], stringClasses[pc], pc == "DURATION", pc == "INT", pc == "UINT", pc == "NODE", pc == "LOCATION":
 					case qc == "RAW":
